@@ -475,22 +475,39 @@ fn run(a: &vhcore::Args) -> i32 {
     pool.recycle_after = 400;
 
     // ---- phase A: base programs, Mode F vs Mode A self-check -----------------------------------
-    let n_self = t.pick(6, 16);
-    let base_reqs: Vec<Request> = bs
+    let n_self = t.pick(6, 16).min(bs.len());
+    // per base one Mode F request (debug + release); for the first `n_self` bases additionally two
+    // single-build Mode A requests (each type-checks std from scratch)
+    let mut base_reqs: Vec<Request> = bs
         .iter()
         .enumerate()
-        .map(|(i, b)| {
-            let mut builds = vec![spec("F-debug", false, false), spec("F-release", true, false)];
+        .map(|(i, b)| req(i, format!("c17_base{i}"), &b.src, vec![spec("F-debug", false, false), spec("F-release", true, false)]))
+        .collect();
+    for i in 0..n_self {
+        base_reqs.push(req(1000 + 2 * i, format!("c17_base{i}_ad"), &bs[i].src, vec![spec("A-debug", false, true)]));
+        base_reqs.push(req(1001 + 2 * i, format!("c17_base{i}_ar"), &bs[i].src, vec![spec("A-release", true, true)]));
+    }
+    let mut base_pool = Pool::new(a.jobs, work.join("bases"));
+    base_pool.timeout = Duration::from_secs(3600);
+    let mut all_resps = base_pool.run(&base_reqs);
+    let a_resps: Vec<Result<Response, String>> = all_resps.split_off(bs.len());
+    // merge: base i gets builds [F-debug, F-release, A-debug, A-release] when all three requests answered
+    let base_resps: Vec<Result<Response, String>> = all_resps
+        .into_iter()
+        .enumerate()
+        .map(|(i, r)| {
+            let mut r = r?;
             if i < n_self {
-                builds.push(spec("A-debug", false, true));
-                builds.push(spec("A-release", true, true));
+                for k in 0..2 {
+                    match &a_resps[2 * i + k] {
+                        Ok(x) => r.builds.extend(x.builds.iter().cloned()),
+                        Err(e) => vhcore::machinery_failure(&format!("self-check: Mode A build of base {} did not answer: {e}", bs[i].name)),
+                    }
+                }
             }
-            req(i, format!("c17_base{i}"), &b.src, builds)
+            Ok(r)
         })
         .collect();
-    let mut base_pool = Pool::new(a.jobs, work.join("bases"));
-    base_pool.timeout = Duration::from_secs(1200); // four builds per request, two of them type-check std from scratch
-    let base_resps = base_pool.run(&base_reqs);
     let mut builds_total = 0usize;
     let mut self_checked = 0usize;
     let mut cold_ms: Vec<u64> = vec![];
